@@ -17,18 +17,19 @@ string* `url` (`urlsplit`, `safe_urlsplit`, `pathsplit`, `infer_redirection`,
 * totality: `parse_youtube_url_total`, `extract_video_id_total`, `normalize_youtube_url_total`.
 * validators: `record_valid`, `extract_video_id_valid`.
 * round trip through the canonical url (`recordUrl r`, what `normalize_youtube_url` builds):
-  `record_fields` (what the parser guarantees about the fields), `reparse_url_partial` on the
-  region `Residual` (names and channel ids without `%`; playlist ids without `/`, `%`), `reparse_short` and
-  `reparse_video_without_playlist` full; the three former counterexamples were repaired in /repo
-  (55c9bda, d47b8e8, 569f4b6, 716cf1e); one remains — `fullReparse_false`,
-  `fullIdempotent_false`: a TAB inside a continuation pattern held by a name, KF-C19-YT-4; `normalize_youtube_idempotent_partial`, `normalize_unparsed_fixed`.
+  `record_fields`, `record_names_no_continuation` (what the parser guarantees about the fields),
+  `reparse_url` / `reparse_url_module` — **full**: `parse u = some r → parse (recordUrl r) = some r`
+  for every string; `normalize_youtube_idempotent` / `normalize_youtube_idempotent_module` — **full**.
+  The shapes that used to break it were repaired in /repo (55c9bda, d47b8e8, 569f4b6, 716cf1e, and
+  the two fixes for the former known findings KF-C19-YT-4 / KF-C19-YT-5: TAB / CR / LF are removed
+  before the regexes run; a playlist id stops at `/` and `%`).
 -/
 namespace Ural.Props.C19.Youtube
 open Ural Ural.Py Ural.C19 Ural.Youtube Ural.HostnameTrieSet
 
 /-! ## table obligations (regenerated data) -/
 
-/-- the seven regexes the hand-written matchers were written for are unchanged (pattern
+/-- the eight regexes the hand-written matchers were written for are unchanged (pattern
 strings and flags: 32 = `re.U`, 34 = `re.I | re.U`) -/
 theorem youtube_patterns_unchanged :
     Gen.youtubeVideoIdPattern = videoIdPattern ∧ Gen.youtubeVideoIdFlags = 32 ∧
@@ -37,8 +38,24 @@ theorem youtube_patterns_unchanged :
     Gen.youtubeQueryListPattern = queryListPattern ∧ Gen.youtubeQueryListFlags = 34 ∧
     Gen.youtubeNextVPattern = nextVPattern ∧ Gen.youtubeNextVFlags = 34 ∧
     Gen.youtubeNestedNextVPattern = nestedNextVPattern ∧ Gen.youtubeNestedNextVFlags = 34 ∧
-    Gen.youtubeFragmentVPattern = fragmentVPattern ∧ Gen.youtubeFragmentVFlags = 34 := by
+    Gen.youtubeFragmentVPattern = fragmentVPattern ∧ Gen.youtubeFragmentVFlags = 34 ∧
+    Gen.youtubeUnsafeUrlCharsPattern = unsafeUrlCharsPattern ∧ Gen.youtubeUnsafeUrlCharsFlags = 32 := by
   decide
+
+/-- the stop characters of the four value matchers are the excluded classes of the regenerated
+patterns (`list=([^&#?/%]+)`: a playlist id stops at `&`, `#`, `?`, `/`, `%`), and the characters
+`stripUnsafe` removes are the class of `UNSAFE_URL_CHARS_RE` -/
+theorem youtube_stops_are_pattern_classes :
+    Gen.youtubeQueryVPattern = "v=([^" ++ String.ofList stopsAmpHash ++ "]+)" ∧
+    Gen.youtubeQueryListPattern = "list=([^" ++ String.ofList stopsList ++ "]+)" ∧
+    Gen.youtubeNextVPattern = "next=%2Fwatch%3Fv%3D([^" ++ String.ofList stopsPctAmpHash ++ "]+)" ∧
+    Gen.youtubeNestedNextVPattern = "next%3D%252Fwatch%253Fv%253D([^" ++ String.ofList stopsPctAmpHash ++ "]+)" ∧
+    (∀ c ∈ stopsList, c ∈ ['&', '#', '?', '/', '%']) ∧ '%' ∈ stopsList ∧ '/' ∈ stopsList ∧
+    Gen.youtubeUnsafeUrlCharsPattern = "[\\t\\r\\n]" ∧
+    (∀ c, isUnsafeUrlChar c = true ↔ c = '\t' ∨ c = '\r' ∨ c = '\n') := by
+  refine ⟨by decide, by decide, by decide, by decide, by decide, by decide, by decide, by decide, ?_⟩
+  intro c
+  simp [isUnsafeUrlChar, or_assoc]
 
 /-- the five URL templates are the model's prefixes followed by `%s` -/
 theorem youtube_templates_unchanged :
@@ -152,85 +169,47 @@ theorem youtube_trie_knows_www (puny : Str → Str) : KnowsWww puny (youtubeTrie
 
 /-! ## round trip -/
 
-/-- the full statement: re-parsing the canonical url of any parsed record gives the record back.
-Proved on the region `Residual` below; false outside it (`fullReparse_false`, known finding
-KF-C19-YT-4). -/
-def FullReparse : Prop :=
-  ∀ (puny : Str → Str) (t : T), KnowsWww puny t → ∀ url r,
-    parse_youtube_url puny t url true = .ok (some r) →
-    parse_youtube_url puny t (recordUrl r) true = .ok (some r)
-
-/-- **what the parser guarantees about the fields**: a playlist id is non-empty and holds no
-`&`, `#`, `?`; a user name or channel id is a piece of the path `urlsplit` hands out (no `/`, `?`,
-`#`, TAB, CR, LF) without `&` and without white space at either end; a channel name is such a
-piece without `&` -/
+/-- **what the parser guarantees about the fields**: a playlist id is non-empty and holds none of
+`&`, `#`, `?`, `/`, `%`, TAB, CR, LF; a user name or channel id is a piece of the path `urlsplit`
+hands out (no `/`, `?`, `#`, TAB, CR, LF) without `&` and without white space at either end; a
+channel name is such a piece without `&` -/
 theorem record_fields (puny : Str → Str) (t : T) (url : Str) (fix : Bool) (r : Record)
     (h : parse_youtube_url puny t url fix = .ok (some r)) : Fields r :=
   parse_fields puny t url fix r h
 
-/-- what is *left* to assume for the round trip, beyond what the parser guarantees: a playlist
-id without `/` and `%`; a user name, channel id or channel name without `%`.  (`%`: the two
-continuation patterns `next=%2Fwatch…` are searched in the whole url; `/`: the cache-host
-patterns of `infer_redirection`.  A name or playlist id that really held one of these patterns
-would have been followed / taken for a video by the first parse — unless a TAB / CR / LF hides
-it there: the patterns are searched in the raw url, the path is read after `urlsplit` removed
-those characters; that is the counterexample `fullReparse_false`.) -/
-def Residual : Record → Prop
-  | .video _ (some p) => ∀ c ∈ p, c ≠ '/' ∧ c ≠ '%'
-  | .video _ none => True
-  | .user name => ∀ c ∈ name, c ≠ '%'
-  | .channel (some cid) _ => ∀ c ∈ cid, c ≠ '%'
-  | .channel none (some name) => ∀ c ∈ name, c ≠ '%'
-  | .channel none none => True
-  | .short _ => True
+/-- **a user name, channel id or channel name holds no continuation pattern** (`NEXT_V_RE`,
+`NESTED_NEXT_V_RE`): it is a piece of the url — after `infer_redirection` and the removal of
+TAB / CR / LF — in which the two patterns were searched, and nothing was found, or the url would
+have been a video.  (Before the removal of TAB / CR / LF was moved in front of the regexes this
+was false: `youtube.com/user/ne<TAB>xt=%2Fwatch%3Fv%3D<id>`.) -/
+theorem record_names_no_continuation (puny : Str → Str) (t : T) (url : Str) (fix : Bool) (r : Record)
+    (h : parse_youtube_url puny t url fix = .ok (some r)) : ∀ x, nameField r = some x → NoCont x :=
+  (parse_fields_noCont puny t url fix r h).2
 
-instance (r : Record) : Decidable (Residual r) := by
-  unfold Residual
-  split <;> infer_instance
-
-theorem good_of_residual (r : Record) (hv : Valid true r) (hf : Fields r) (hr : Residual r) : Good r := by
-  match r, hv, hf, hr with
-  | .video _ none, _, _, _ => trivial
-  | .short _, _, _, _ => trivial
-  | .video _ (some p), _, hf, hr =>
-    exact ⟨hf.1, fun c hc => ⟨(hf.2 c hc).1, (hf.2 c hc).2.1, (hf.2 c hc).2.2, (hr c hc).1, (hr c hc).2⟩⟩
-  | .user name, _, hf, hr =>
-    exact ⟨fun c hc => ⟨(hf.1 c hc).1, (hf.1 c hc).2.1, (hf.1 c hc).2.2.1, fun e => hf.2.1 (e ▸ hc), hr c hc,
-      (hf.1 c hc).2.2.2⟩, hf.2.2⟩
-  | .channel (some cid) none, _, hf, hr =>
-    exact ⟨fun c hc => ⟨(hf.1 c hc).1, (hf.1 c hc).2.1, (hf.1 c hc).2.2.1, fun e => hf.2.1 (e ▸ hc), hr c hc,
-      (hf.1 c hc).2.2.2⟩, hf.2.2⟩
-  | .channel none (some name), _, hf, hr =>
-    exact fun c hc => ⟨(hf.1 c hc).1, (hf.1 c hc).2.1, (hf.1 c hc).2.2.1, fun e => hf.2 (e ▸ hc), hr c hc,
-      (hf.1 c hc).2.2.2⟩
-
-/-- **re-parsing the canonical url gives the same record** for every url whose record lies in
-`Residual`: playlist ids without `/`, `%`; names and channel ids without `%`.  Everything else
-the round trip needs is guaranteed by the parser (`record_valid`, `record_fields`).  `t` is any
-domain trie that knows `www.youtube.com` (`youtube_trie_knows_www`: the module's trie does). -/
-theorem reparse_url_partial (puny : Str → Str) (t : T) (hT : KnowsWww puny t) (url : Str) (r : Record)
-    (h : parse_youtube_url puny t url true = .ok (some r)) (hr : Residual r) :
+/-- **re-parsing the canonical url gives the same record**, for every string `url`:
+`parse_youtube_url(url) = rec → parse_youtube_url(rec.url) = rec`, where `rec.url` is what
+`normalize_youtube_url` builds (`recordUrl`).  `t` is any domain trie that knows
+`www.youtube.com` (`youtube_trie_knows_www`: the module's trie does, see `reparse_url_module`).
+Everything the round trip needs (`Good`) is guaranteed by the parser: `record_valid`,
+`record_fields`, `record_names_no_continuation`. -/
+theorem reparse_url (puny : Str → Str) (t : T) (hT : KnowsWww puny t) (url : Str) (r : Record)
+    (h : parse_youtube_url puny t url true = .ok (some r)) :
     parse_youtube_url puny t (recordUrl r) true = .ok (some r) :=
   reparse_of_good puny t hT roundtrip_obligations r (record_valid puny t url true r h)
-    (good_of_residual r (record_valid puny t url true r h) (record_fields puny t url true r h) hr)
+    (good_of_fields r (record_valid puny t url true r h) (record_fields puny t url true r h)
+      (record_names_no_continuation puny t url true r h))
 
-/-- full for shorts: `youtube.com/shorts/<id>` always parses back -/
-theorem reparse_short (puny : Str → Str) (t : T) (hT : KnowsWww puny t) (url id : Str)
-    (h : parse_youtube_url puny t url true = .ok (some (.short id))) :
-    parse_youtube_url puny t (recordUrl (.short id)) true = .ok (some (.short id)) :=
-  reparse_url_partial puny t hT url _ h trivial
-
-/-- full for videos without playlist: `youtube.com/watch?v=<id>` always parses back -/
-theorem reparse_video_without_playlist (puny : Str → Str) (t : T) (hT : KnowsWww puny t) (url id : Str)
-    (h : parse_youtube_url puny t url true = .ok (some (.video id none))) :
-    parse_youtube_url puny t (recordUrl (.video id none)) true = .ok (some (.video id none)) :=
-  reparse_url_partial puny t hT url _ h trivial
+/-- the same for the trie the module builds from `YOUTUBE_DOMAINS`: no hypothesis left -/
+theorem reparse_url_module (puny : Str → Str) (url : Str) (r : Record)
+    (h : parse_youtube_url puny (youtubeTrie puny) url true = .ok (some r)) :
+    parse_youtube_url puny (youtubeTrie puny) (recordUrl r) true = .ok (some r) :=
+  reparse_url puny _ (youtube_trie_knows_www puny) url r h
 
 /-- `parse_youtube_url` with the fuel-driven form of `infer_redirection` (`infer` is defined by
 well-founded recursion, which the kernel does not unfold: this form is what `decide` runs) -/
 theorem parse_eq_fuel (puny : Str → Str) (t : T) (url : Str) (fix : Bool) :
     parse_youtube_url puny t url fix =
-      (let url := inferFuel inferTarget url.length url
+      (let url := stripUnsafe (inferFuel inferTarget url.length url)
        let playlist := queryList url
        match (nextV url).or (nestedNextV url) with
        | some v => .ok (videoOf fix v playlist)
@@ -248,33 +227,33 @@ def smallTrie : T := ["youtube.com".toList, "youtu.be".toList].foldl (add isSpec
 
 theorem smallTrie_knows_www : KnowsWww id smallTrie := by unfold KnowsWww; decide +kernel
 
-/-- the hypothesis on `%` cannot be dropped: `youtube.com/user/ne<TAB>xt=%2Fwatch%3Fv%3D<id>` is
-the user `next=%2Fwatch%3Fv%3D<id>` (the TAB hides the continuation pattern from `NEXT_V_RE`,
-which reads the raw url, but not from the path, which `urlsplit` cleans), and the canonical url
-of that user is a continuation url: it parses to the video `<id>` (known finding KF-C19-YT-4) -/
-theorem fullReparse_false : ¬ FullReparse := by
-  intro h
-  have h1 : parse_youtube_url id smallTrie "youtube.com/user/ne\txt=%2Fwatch%3Fv%3DdQw4w9WgXcQ".toList true =
-      .ok (some (.user "next=%2Fwatch%3Fv%3DdQw4w9WgXcQ".toList)) := by rw [parse_eq_fuel]; decide +kernel
-  have h2 := h id smallTrie smallTrie_knows_www _ _ h1
-  have h3 : parse_youtube_url id smallTrie (recordUrl (.user "next=%2Fwatch%3Fv%3DdQw4w9WgXcQ".toList)) true =
-      .ok (some (.video "dQw4w9WgXcQ".toList none)) := by rw [parse_eq_fuel]; decide +kernel
-  rw [h3] at h2
-  exact absurd h2 (by decide)
-
-/-- the hypothesis on `%` inside a playlist id cannot be dropped either: with two continuation
-patterns the leftmost gives the video id, the one inside the playlist id survives alone in the
-canonical url and gives another id (known finding KF-C19-YT-5) -/
+/-- the two shapes that broke the round trip before TAB / CR / LF were removed in front of the
+regexes and before a playlist id stopped at `%` (former known findings KF-C19-YT-4, KF-C19-YT-5),
+as repaired: `youtube.com/user/ne<TAB>xt=%2Fwatch%3Fv%3D<id>` is a continuation url, hence the
+video `<id>` (it used to be the user `next=%2Fwatch%3Fv%3D<id>`, whose canonical url parses to the
+video); the playlist id of `…?list=next=%2Fwatch%3Fv%3D<B>` is `next=` (it used to hold a second
+continuation pattern, the only one left in the canonical url) -/
 example :
+    parse_youtube_url id smallTrie "youtube.com/user/ne\txt=%2Fwatch%3Fv%3DdQw4w9WgXcQ".toList true =
+      .ok (some (.video "dQw4w9WgXcQ".toList none)) ∧
     parse_youtube_url id smallTrie
         "youtube.com/next=%2Fwatch%3Fv%3DAAAAAAAAAAA?list=next=%2Fwatch%3Fv%3DBBBBBBBBBBB".toList true =
-      .ok (some (.video "AAAAAAAAAAA".toList (some "next=%2Fwatch%3Fv%3DBBBBBBBBBBB".toList))) ∧
-    parse_youtube_url id smallTrie
-        (recordUrl (.video "AAAAAAAAAAA".toList (some "next=%2Fwatch%3Fv%3DBBBBBBBBBBB".toList))) true =
-      .ok (some (.video "BBBBBBBBBBB".toList (some "next=%2Fwatch%3Fv%3DBBBBBBBBBBB".toList))) := by
+      .ok (some (.video "AAAAAAAAAAA".toList (some "next=".toList))) ∧
+    parse_youtube_url id smallTrie (recordUrl (.video "AAAAAAAAAAA".toList (some "next=".toList))) true =
+      .ok (some (.video "AAAAAAAAAAA".toList (some "next=".toList))) := by
+  rw [parse_eq_fuel, parse_eq_fuel, parse_eq_fuel]; decide +kernel
+
+/-- why a playlist id stops at `/` as well: `infer_redirection` reads the raw url, where a TAB
+hides the cache host `bc.marfeel.com/`; with the TAB removed the playlist id would be
+`bc.marfeel.com/x`, and the canonical url would be followed as a redirection to `https://x` -/
+example :
+    parse_youtube_url id smallTrie "youtube.com/watch?v=dQw4w9WgXcQ&list=bc.marfeel.co\tm/x".toList true =
+      .ok (some (.video "dQw4w9WgXcQ".toList (some "bc.marfeel.com".toList))) ∧
+    parse_youtube_url id smallTrie "https://www.youtube.com/watch?v=dQw4w9WgXcQ&list=bc.marfeel.com/x".toList true =
+      .ok none := by
   rw [parse_eq_fuel, parse_eq_fuel]; decide +kernel
 
-/-- the shapes that used to break the round trip, as repaired (55c9bda, d47b8e8, 569f4b6,
+/-- the shapes that used to break the round trip earlier, as repaired (55c9bda, d47b8e8, 569f4b6,
 716cf1e): a reserved word behind `@` is no channel; a trailing blank is no part of a name; a
 playlist id stops at `?`; a name stops at `&` -/
 example :
@@ -285,21 +264,28 @@ example :
     parse_youtube_url id smallTrie "q=1@youtube.com/user/a&u=%2Fx".toList true = .ok (some (.user "a".toList)) := by
   rw [parse_eq_fuel, parse_eq_fuel, parse_eq_fuel, parse_eq_fuel]; decide +kernel
 
-/-- non-vacuity: a video with a playlist, found behind a fragment-swallowing url, in `Residual` -/
+/-- non-vacuity: a video with a playlist, found behind a fragment-swallowing url, and its
+canonical url -/
 example :
     parse_youtube_url id smallTrie "https://m.youtube.com/watch?feature=share&v=dQw4w9WgXcQxx&list=PL1#frag".toList true =
       .ok (some (.video "dQw4w9WgXcQ".toList (some "PL1".toList))) ∧
-    Residual (.video "dQw4w9WgXcQ".toList (some "PL1".toList)) ∧
     recordUrl (.video "dQw4w9WgXcQ".toList (some "PL1".toList)) =
-      "https://www.youtube.com/watch?v=dQw4w9WgXcQ&list=PL1".toList := by
-  rw [parse_eq_fuel]; decide +kernel
+      "https://www.youtube.com/watch?v=dQw4w9WgXcQ&list=PL1".toList ∧
+    parse_youtube_url id smallTrie (recordUrl (.video "dQw4w9WgXcQ".toList (some "PL1".toList))) true =
+      .ok (some (.video "dQw4w9WgXcQ".toList (some "PL1".toList))) := by
+  rw [parse_eq_fuel, parse_eq_fuel]; decide +kernel
 
+/-- non-vacuity: names with `%` (formerly outside the proved region), a channel behind `/c/@` -/
 example :
     parse_youtube_url id smallTrie "youtu.be/".toList true = .ok none ∧
     parse_youtube_url id smallTrie "youtube.com/c/@Some-Name/videos".toList true =
       .ok (some (.channel none (some "Some-Name".toList))) ∧
-    Residual (.channel none (some "Some-Name".toList)) := by
-  rw [parse_eq_fuel, parse_eq_fuel]; decide +kernel
+    parse_youtube_url id smallTrie "m.youtube.com/user/a%20b%2Fnext=/videos".toList true =
+      .ok (some (.user "a%20b%2Fnext=".toList)) ∧
+    parse_youtube_url id smallTrie (recordUrl (.user "a%20b%2Fnext=".toList)) true =
+      .ok (some (.user "a%20b%2Fnext=".toList)) ∧
+    NoCont "a%20b%2Fnext=".toList := by
+  rw [parse_eq_fuel, parse_eq_fuel, parse_eq_fuel, parse_eq_fuel]; decide +kernel
 
 /-! ## `normalize_youtube_url` is idempotent -/
 
@@ -310,16 +296,11 @@ theorem normalize_unparsed_fixed (puny : Str → Str) (t : T) (url : Str)
   unfold normalize_youtube_url
   rw [h]
 
-/-- the full statement (proved on `Residual` below; false outside it: `fullIdempotent_false`) -/
-def FullIdempotent : Prop :=
-  ∀ (puny : Str → Str) (t : T), KnowsWww puny t → ∀ url n,
-    normalize_youtube_url puny t url = .ok n → normalize_youtube_url puny t n = .ok n
-
-/-- **`normalize_youtube_url` is idempotent** on every url that does not parse (full) and on
-every url whose record lies in `Residual` -/
-theorem normalize_youtube_idempotent_partial (puny : Str → Str) (t : T) (hT : KnowsWww puny t)
-    (url n : Str) (hg : ∀ r, parse_youtube_url puny t url true = .ok (some r) → Residual r)
-    (h : normalize_youtube_url puny t url = .ok n) : normalize_youtube_url puny t n = .ok n := by
+/-- **`normalize_youtube_url` is idempotent**, for every string `url`:
+`normalize_youtube_url(normalize_youtube_url(url)) = normalize_youtube_url(url)` (`t`: any domain
+trie that knows `www.youtube.com`) -/
+theorem normalize_youtube_idempotent (puny : Str → Str) (t : T) (hT : KnowsWww puny t)
+    (url n : Str) (h : normalize_youtube_url puny t url = .ok n) : normalize_youtube_url puny t n = .ok n := by
   unfold normalize_youtube_url at h
   cases hp : parse_youtube_url puny t url true with
   | error e => exact absurd hp (parse_youtube_url_total puny t url true e)
@@ -333,23 +314,25 @@ theorem normalize_youtube_idempotent_partial (puny : Str → Str) (t : T) (hT : 
     | some r =>
       simp only [Except.ok.injEq] at h
       subst h
-      have := reparse_url_partial puny t hT url r hp (hg r hp)
+      have := reparse_url puny t hT url r hp
       unfold normalize_youtube_url
       rw [this]
 
-/-- outside `Residual` idempotence fails, for the same reason as `fullReparse_false`: the url
-normalizes to `…/user/next=%2Fwatch%3Fv%3D<id>`, which normalizes to `…/watch?v=<id>`
-(known finding KF-C19-YT-4) -/
-theorem fullIdempotent_false : ¬ FullIdempotent := by
-  intro h
-  have h1 : normalize_youtube_url id smallTrie "youtube.com/user/ne\txt=%2Fwatch%3Fv%3DdQw4w9WgXcQ".toList =
-      .ok "https://www.youtube.com/user/next=%2Fwatch%3Fv%3DdQw4w9WgXcQ".toList := by
-    unfold normalize_youtube_url; rw [parse_eq_fuel]; decide +kernel
-  have h2 := h id smallTrie smallTrie_knows_www _ _ h1
-  have h3 : normalize_youtube_url id smallTrie "https://www.youtube.com/user/next=%2Fwatch%3Fv%3DdQw4w9WgXcQ".toList =
+/-- the same for the trie the module builds, in the usual form: no hypothesis left
+(`normalize_youtube_url` never raises: `normalize_youtube_url_total`) -/
+theorem normalize_youtube_idempotent_module (puny : Str → Str) (url : Str) :
+    ∃ n, normalize_youtube_url puny (youtubeTrie puny) url = .ok n ∧
+      normalize_youtube_url puny (youtubeTrie puny) n = .ok n := by
+  cases h : normalize_youtube_url puny (youtubeTrie puny) url with
+  | error e => exact absurd h (normalize_youtube_url_total puny _ url e)
+  | ok n => exact ⟨n, rfl, normalize_youtube_idempotent puny _ (youtube_trie_knows_www puny) url n h⟩
+
+/-- non-vacuity: the former counterexample of idempotence normalizes in one step -/
+example :
+    normalize_youtube_url id smallTrie "youtube.com/user/ne\txt=%2Fwatch%3Fv%3DdQw4w9WgXcQ".toList =
+      .ok "https://www.youtube.com/watch?v=dQw4w9WgXcQ".toList ∧
+    normalize_youtube_url id smallTrie "https://www.youtube.com/watch?v=dQw4w9WgXcQ".toList =
       .ok "https://www.youtube.com/watch?v=dQw4w9WgXcQ".toList := by
-    unfold normalize_youtube_url; rw [parse_eq_fuel]; decide +kernel
-  rw [h3] at h2
-  exact absurd h2 (by decide)
+  unfold normalize_youtube_url; rw [parse_eq_fuel, parse_eq_fuel]; decide +kernel
 
 end Ural.Props.C19.Youtube
